@@ -182,6 +182,51 @@ def cls_of(m):
     return None if c == "-" else c
 
 
+EDGE_WITNESS = {("Float", str(I53 - 1)), ("Float", str(-(I53 - 1))), ("Float!", str(I53 - 1)),
+                ("Float!", str(-(I53 - 1))), ("ID", str(I63)), ("ID!", str(I63)), ("ID", str(I64 - 1)), ("ID!", str(I64 - 1))}
+
+
+def oracle_c(ctx, model, triples, rows):
+    """(C): the property's own predicates on the IMPLEMENTATION's results.
+    1. domain and conformance of every `ok` result (Coq predicates cv_var_present / conforms_input, extracted);
+    2. the specification accepts the boundary integers at Float / ID: `err` there is the known class edge_int."""
+    mc_of = {ic: mc for ic, mc, _ in triples}
+    ok_rows = [r for r in rows if r[1].startswith("ok ")]
+    lines = []
+    for ic, iobs, mo, rd in ok_rows:
+        sd, dd, jd = mc_of[ic].split(" ")
+        lines.append(f"{sd} {dd} {jd} {iobs[3:]}")
+    outs = run_family(model, "c28_oracle", lines)
+    fam = ctx.cov["families"].setdefault("c28_oracle", {"cases": 0, "agree": 0, "known": 0})
+    for (ic, iobs, mo, rd), o in zip(ok_rows, outs):
+        fam["cases"] += 1
+        if o == "ok":
+            fam["agree"] += 1
+            continue
+        if o.startswith("model-"):
+            raise MachineryError(f"oracle failed on {rd}: {o}")
+        cls = cls_of(mo)
+        if cls == "default_not_coerced" and ctx.known_hit(cls):
+            fam["known"] += 1
+            continue
+        ctx.oracle_failures += 1
+        ctx.violation({"family": "coerce_vars", "case": ic, "model_case": mc_of[ic], "case_readable": rd, "impl": iobs,
+                       "oracle": o, "what": "the result of coerce_variable_values does not have the domain / does not "
+                       "conform to the declared types (C28_domain, C28_conforms evaluated on the implementation)"})
+    for ic, iobs, mo, rd in rows:
+        m = re.search(r"query\(\$v: ([A-Za-z!]+)\) .*\{\"v\":(-?[0-9]+)\}$", rd)
+        if m and (m.group(1), m.group(2)) in EDGE_WITNESS:
+            fam["cases"] += 1
+            if iobs.startswith("ok "):
+                fam["agree"] += 1
+            elif ctx.known_hit("edge_int"):
+                fam["known"] += 1
+            else:
+                ctx.oracle_failures += 1
+                ctx.violation({"family": "coerce_vars", "case": ic, "model_case": mc_of[ic], "case_readable": rd,
+                               "impl": iobs, "what": "the specification accepts this integer at this type"})
+
+
 def run(ctx):
     props = check_props(ctx.pid)
     model = build_model()
@@ -192,6 +237,7 @@ def run(ctx):
                             classify=lambda rd, i, m: cls_of(m),
                             nontrivial=lambda rd, o: True,
                             compare=lambda i, m: i == strip_cls(m))
+    oracle_c(ctx, model, triples, rows)
     fam = ctx.cov["families"]["coerce_vars"]
     fam["accepted"] = sum(1 for _, i, _, _ in rows if i.startswith("ok"))
     fam["rejected"] = sum(1 for _, i, _, _ in rows if i.startswith("err"))
